@@ -87,6 +87,39 @@ def call_graph(prog):
     return g
 
 
+def _depth_fact(q, depth_idx):
+    """What a condition event says about the `depth` parameter: ('lt', B) = depth < B holds on this path, ('ge', B) =
+    depth >= B holds.  Recognises depth (+ k) compared with a constant by < <= > >=, either way round."""
+    if q.kind != "cond" or not isinstance(q.term, tuple) or q.term[0] != "bin" or q.value not in (0, 1):
+        return None
+    op, l, rr = q.term[1], _uncast(q.term[2]), _uncast(q.term[3])
+    flip = {"Lt": "Gt", "Le": "Ge", "Gt": "Lt", "Ge": "Le"}
+    if op not in flip:
+        return None
+    if const_of(l) is not None and const_of(rr) is None:
+        l, rr, op = rr, l, flip[op]
+    c = const_of(rr)
+    if c is None:
+        return None
+    k = 0
+    if isinstance(l, tuple) and l[0] == "bin" and l[1] == "Add" and const_of(l[3]) is not None:
+        k, l = const_of(l[3]), _uncast(l[2])
+    elif isinstance(l, tuple) and l[0] == "bin" and l[1] == "Add" and const_of(l[2]) is not None:
+        k, l = const_of(l[2]), _uncast(l[3])
+    if not (isinstance(l, tuple) and l[0] == "arg" and l[1] == depth_idx):
+        return None
+    c -= k                       # depth + k OP c  <=>  depth OP c - k
+    if not q.value:
+        op = {"Lt": "Ge", "Le": "Gt", "Gt": "Le", "Ge": "Lt"}[op]
+    if op == "Lt":
+        return ("lt", c)
+    if op == "Le":
+        return ("lt", c + 1)
+    if op == "Ge":
+        return ("ge", c)
+    return ("ge", c + 1)
+
+
 def rule_depth_guard(ctx):
     r = RuleResult("REC-DEPTH-GUARD", ["C07"],
                    "every call-graph cycle reachable from dispose contains a call whose integer argument strictly increases "
@@ -138,27 +171,41 @@ def rule_depth_guard(ctx):
                 # dominated by a passed guard `depth >= CAP` == false
                 gd = None
                 for q in p.events[:i]:
-                    if q.kind == "cond" and isinstance(q.term, tuple) and q.term[0] == "bin" and q.term[1] in ("Ge", "Gt") \
-                            and q.term[2] == ("arg", depth_idx, "depth") and const_of(q.term[3]) is not None and q.value == 0:
-                        c = const_of(q.term[3]) + (1 if q.term[1] == "Gt" else 0)
-                        gd = c if gd is None else min(gd, c)
+                    df = _depth_fact(q, depth_idx)
+                    if df is not None and df[0] == "lt":
+                        gd = df[1] if gd is None else min(gd, df[1])
                 if gd is None:
                     guarded_ok = False
-                    r.violate(DGN, "no-depth-guard", "the recursive call is not preceded by an early return under a constant "
-                              "depth cap: recursion depth is bounded only by the length of the structure", e.loc())
+                    r.violate(DGN, "no-depth-guard", "the recursive call is not reached only under a constant bound on "
+                              "`depth` (an early return or a branch under `depth >= CAP`): recursion depth is bounded only "
+                              "by the length of the structure", e.loc())
                 else:
-                    cap = gd if cap is None else max(cap, gd)
+                    # frames doing work: the callee's depth is at most gd (caller's depth < gd), unless the callee itself
+                    # returns at once under `depth >= B2`
+                    b2 = []
+                    for p2 in ctx.paths(DGN):
+                        if [x for x in p2.events if x.kind == "call" and x.target == DGN]:
+                            continue
+                        for j, q in enumerate(p2.events):
+                            df = _depth_fact(q, depth_idx)
+                            if df is not None and df[0] == "ge" and df[1] >= 2 and \
+                                    not any(x.kind == "call" and ctx.atomic_event(x) for x in p2.events[:j]):
+                                b2.append(df[1])     # an entry guard: nothing was read or written before it
+                    frames = min([gd + 1] + b2)
+                    cap = frames if cap is None else max(cap, frames)
         # the capped arm returns without recursing
         for p in ctx.paths(DGN):
-            capped = [q for q in p.events if q.kind == "cond" and isinstance(q.term, tuple) and q.term[0] == "bin"
-                      and q.term[1] in ("Ge", "Gt") and q.term[2] == ("arg", depth_idx, "depth") and q.value == 1
-                      and (const_of(q.term[3]) or 0) >= 2]
-            if capped and [e for e in p.events if e.kind == "call" and e.target == DGN]:
-                r.violate(DGN, "cap-arm", "the path taken at the depth cap still recurses", capped[0].loc())
+            for i, q in enumerate(p.events):
+                df = _depth_fact(q, depth_idx)
+                if df is not None and df[0] == "ge" and df[1] >= 2 and \
+                        [e for e in p.events[i:] if e.kind == "call" and e.target == DGN] and \
+                        not any((_depth_fact(q2, depth_idx) or ("", 0))[0] == "lt" for q2 in p.events[i:]):
+                    r.violate(DGN, "cap-arm", "the path taken at the depth cap still recurses", q.loc())
+                    break
         if nrec == 0:
             raise AnalysisError("REC-DEPTH-GUARD: no recursive call found on paths")
         r.instance("recursive call passes depth + 1", increasing_ok)
-        r.instance("recursive call dominated by `depth >= %s` early return" % cap, guarded_ok)
+        r.instance("recursive call reached only under a constant bound on depth (at most %s nested working frames)" % cap, guarded_ok)
         if cap is not None:
             bound = cap * MIN_FRAME
             ok = bound < MIN_LEGAL_STACK
@@ -186,9 +233,17 @@ def rule_immediate(ctx):
         for s in ctx.sites_on_path(p):
             if s["delta"].get("strong", (0,))[0] < 0 and s["outcome"] == "ok":
                 hs = [h for h in handoffs(ctx, p, s["idx"]) if h[1] == ptr_root(s["obj"])]
+                depth_idx = [i for i in range(1, b.arg_count + 1) if b.local_name(i) == "depth"]
                 for h in hs:
                     ok = h[0] == "direct:" + DGN
                     ndirect += 1
+                    if not ok and h[0] == "defer:" + TRY_DESTRUCT and depth_idx:
+                        # the depth cap tested by the caller: the child would be at depth >= 1024
+                        facts = [_depth_fact(q, depth_idx[0]) for q in p.events[:p.events.index(h[2])]]
+                        capped = [f[1] + 1 for f in facts if f is not None and f[0] == "ge"]
+                        if capped and max(capped) >= 1024:
+                            r.instance("cascade child with zero count at the depth cap (%d) -> %s" % (max(capped), h[0]), True)
+                            continue
                     r.instance("cascade child with zero count -> %s" % h[0], ok)
                     if not ok:
                         r.violate(DGN, "child-handoff", "a child whose count hit zero is deferred instead of being disposed in "
@@ -243,4 +298,72 @@ def rule_immediate(ctx):
     if not ok:
         r.violate(DGN, "repin", "no periodic re-pin during long disposals: the epoch cannot advance while one pass runs")
     r.require(ndirect, 1, "cascade hand-offs")
+    return r
+
+
+# ------------------------------------------------------------------------------------------
+COLLECT = "ebr_impl::internal::Global::collect"
+UNPIN = "ebr_impl::internal::Local::unpin"
+
+
+def rule_collect_reentry(ctx):
+    """Deferred functions run user destructors, which drop Rcs, which defer and flush: every API a destructor can reach
+    (flush, defer, schedule_collection, nested cs()/unpin) must not start a collection of its own, or the recursion
+    collect -> destructor -> collect restarts `depth` at 0 on every level and nests once per expired bag."""
+    from .rules_ebr import _cell_get, _set_is_noop
+    r = RuleResult("REC-COLLECT-REENTRY", ["C07"],
+                   "collections never nest: Global::collect is called only from the loop of Local::unpin, behind the "
+                   "`collecting` flag that unpin alone sets and clears")
+    prog = ctx.prog
+    callers = sorted({h for (b, _, _, _) in prog.callers_of(COLLECT) for h in prog.path_roots(b.name)})
+    ok = callers == [UNPIN]
+    r.instance("Global::collect <- %s" % callers, ok)
+    r.functions.add(COLLECT)
+    for c in callers:
+        if c != UNPIN:
+            r.violate(c, "collect", "starts a collection outside the loop of Local::unpin: when reached from a deferred "
+                      "destructor (drop of an Rc -> decrement -> flush/defer) collections nest, one stack level per expired "
+                      "bag, each restarting the depth count at 0", prog.body(c).loc(0))
+    b = prog.body(UNPIN)
+    r.functions.add(UNPIN)
+    n = 0
+    for p in ctx.ex.paths(b):
+        ci = [i for i, e in enumerate(p.events) if e.kind == "call" and e.target == COLLECT]
+        if not ci:
+            continue
+        n += 1
+        r.paths += 1
+        pre = p.events[:ci[0]]
+        tested = any(e.kind == "cond" and _cell_get(e.term, "Local.collecting") and e.value == 0 for e in pre)
+        sets = [e for e in pre if e.kind == "call" and e.ntarget == "std::cell::Cell::set"
+                and "Local.collecting" in show(e.args[0])]
+        armed = bool(sets) and const_of(sets[-1].args[1]) == 1
+        ok = tested and armed
+        r.instance("unpin collects only after testing !collecting and setting it", ok)
+        if not ok:
+            r.violate(UNPIN, "reentry", "collect is reached without the re-entrancy flag having been tested clear and set "
+                      "(tested=%s, set=%s): an unpin inside a deferred destructor starts a nested collection" % (tested, armed),
+                      p.events[ci[0]].loc())
+    # writers of the flag
+    nw = 0
+    for name, body in sorted(prog.bodies.items()):
+        if not any(norm(c.target or "") in ("std::cell::Cell::set", "std::cell::Cell::replace", "std::cell::Cell::take")
+                   for (_, _, c) in body.calls()):
+            continue
+        for root in prog.path_roots(name):
+            seen = set()
+            for p in ctx.ex.paths(prog.body(root)):
+                for i, e in enumerate(p.events):
+                    if e.kind == "call" and e.ntarget == "std::cell::Cell::set" and "Local.collecting" in show(e.args[0]) \
+                            and (e.body.name, e.bb) not in seen:
+                        seen.add((e.body.name, e.bb))
+                        nw += 1
+                        ok = root == UNPIN
+                        r.instance("%s writes Local.collecting" % root, ok)
+                        if not ok:
+                            r.violate(root, "flag-writer", "writes the `collecting` flag outside Local::unpin: clearing it "
+                                      "during a collection lets a nested unpin collect again", e.loc())
+    r.require(n, 1, "collect call paths in unpin")
+    if nw < 2 and not r.violations:
+        r.floor_failures.append("REC-COLLECT-REENTRY: found %d writes of Local.collecting, expected at least 2" % nw)
     return r
